@@ -52,6 +52,8 @@ def generate(tier, rng):
                 fr.append(gens.arp_req(d, spa=s, sha=bytes(rng.randrange(256) for _ in range(6)),
                                        eth_src=bytes(rng.randrange(256) for _ in range(6)), mac_dst=cfg.mac))
         yield Script(cfg, fr, "all-reply-kinds")
+    # requests whose own header fields lie or are unusual (incl. neighbour solicitations from :: and link-local sources)
+    yield Script(Cfg(key=(5, 6)), gens.hostile_requests(rng), "hostile-requests")
 
 
 def nontrivial(script):
